@@ -6,6 +6,8 @@ import math
 import random
 
 from .. import gen
+
+gen.WIDE_RATE = 0   # wide (~100 operation) instances: too costly here / not needed
 from ..ref import Ref, feasibility_errors, lower_bounds, optimum, schedule_triples
 
 ID = "C03"
